@@ -23,7 +23,8 @@
     its spelling is data), lines with an unreadable or Q1 token. Those are covered by the check, which
     compares every line with every single re-spelling and random/maximal foldings on the
     implementation itself, and reports how many of its cases fall under the theorem's hypotheses. *)
-From MowCli Require Import Base Nfa Matchers Apply Values Flow Cmd View TermProofs MatcherProofs SimProofs ViewProofs ReadProofs.
+From MowCli Require Import Base Nfa Matchers Apply Values Flow Cmd View TermProofs MatcherProofs SimProofs ViewProofs ReadProofs LabelProofs.
+From MowCli Require Import Lexer Parser RefSem.
 
 Theorem C10_own_matcher_cannot_tell_spellings_apart :
   forall D o c long v t1 t2 pre rest,
@@ -95,6 +96,17 @@ Theorem C10_same_reading_same_parse :
     fsm_parse parse_float i a1 = fsm_parse parse_float i a2.
 Proof. exact same_view_same_parse. Qed.
 
+(** the hypothesis [no_dd_graph] follows from the syntax of the spec: a spec without a "--" atom
+    compiles to an automaton without a "--" transition (used by C02, C09, C10, C11) *)
+Theorem C10_spec_without_dd_has_no_dd_transition :
+  forall opts args spec i toks e,
+    compile opts args spec = IOk i ->
+    tokenize spec = LexOk toks ->
+    parse_tokens (lookup_name opts) (lookup_name args) (length spec) toks = ParseOk e ->
+    seq_has_dd e = false -> no_dd_graph (i_graph i) = true.
+Proof. exact compile_no_dd. Qed.
+
+Print Assumptions C10_spec_without_dd_has_no_dd_transition.
 Print Assumptions C10_scan_is_take.
 Print Assumptions C10_spellings_read_alike.
 Print Assumptions C10_folded_read_alike.
